@@ -509,3 +509,97 @@ CHECK_DEADLOCK FALSE
     ctx.assumptions += ["real time: upper bound exact (pings <= elapsed/interval + 1), lower bound tolerant (>= half); at most one keepalive after the session ended (its tick was already due)",
                         "stale-keepalive interference during a reconnection (old session's goroutine vs the new connection) is not covered"]
 FAMILY_TRACE["c18"] = ("TraceKeepalive", "Trace_Keepalive.cfg")
+
+
+# ------------------------------------------------------------------ C07
+IQ_INV = "C07_NoPanic C07_AtMostOnce C07_OnlyOwnRequest C07_NotToOrdinaryWhilePending C07_NoStuck C07_ClosedAndRemoved C07_DeliveredXorOrdinary"
+
+
+def iq_cfg(reqs, idof, maxresp, steps, regfirst, atomic, buffered, emit, inv=True, view=False):
+    b = lambda x: "TRUE" if x else "FALSE"
+    return """SPECIFICATION Spec
+CONSTANTS
+  Reqs <- %s
+  IdOf <- %s
+  Ids = {1, 2}
+  MaxResp = %d
+  MaxSteps = %d
+  RegisterFirst = %s
+  AtomicClaim = %s
+  Buffered = %s
+  Emit = %s
+INVARIANTS %s %s
+%s
+CHECK_DEADLOCK FALSE
+""" % (reqs, idof, maxresp, steps, b(regfirst), b(atomic), b(buffered), b(emit), IQ_INV if inv else "", "EmitInv" if emit else "",
+       "VIEW View" if view else "")
+
+
+@check("C07")
+def c07(ctx):
+    q = ctx.tier == "quick"
+    def full():
+        scen = []
+        # schedules: the intended design's shape and the finer shape of the code as it was found (two-step SendIQ,
+        # four-step dispatch); the latter violates the invariants in the model, so it is emitted without them
+        n1 = 6 if q else 7
+        for kw in (dict(reqs="ReqsOne", idof="IdOne", maxresp=2, steps=n1, regfirst=True, atomic=True, buffered=True, emit=True),
+                   dict(reqs="ReqsOne", idof="IdOne", maxresp=2, steps=n1 + 1, regfirst=False, atomic=False, buffered=True, emit=True, inv=False)):
+            scen += blines(vlib.tlc_mc(ctx, "MC_IQRoutes", "MC_IQRoutes.cfg", cfgtext=iq_cfg(**kw), timeout=900))
+        two = vlib.tlc_simulate(ctx, "MC_IQRoutes", "MC_IQRoutes.cfg", num=250 if q else 3000, depth=13, seed=ctx.seed,
+                                cfgtext=iq_cfg(reqs="ReqsTwo", idof="IdClash" if ctx.seed % 2 else "IdDistinct", maxresp=3, steps=12,
+                                               regfirst=False, atomic=False, buffered=True, emit=True, inv=False))
+        scen += blines(two)
+        # all interleavings of 2 requests (distinct and clashing ids) x 3 responses in the model of the intended design
+        for idof in ("IdDistinct", "IdClash"):
+            vlib.tlc_mc(ctx, "MC_IQRoutes", "MC_IQRoutes.cfg", timeout=900,
+                        cfgtext=iq_cfg(reqs="ReqsTwo", idof=idof, maxresp=3, steps=40, regfirst=True, atomic=True, buffered=True, emit=False, view=True))
+        # non-vacuity: each defect found in the code violates a property in the model
+        for name, kw in (("D15 register after write", dict(regfirst=False, atomic=True, buffered=True)),
+                         ("D14 lookup and delete in separate critical sections", dict(regfirst=True, atomic=False, buffered=True)),
+                         ("D14 unbuffered channel", dict(regfirst=True, atomic=True, buffered=False))):
+            r = vlib.run_tlc(ctx, "MC_IQRoutes", "MC_IQRoutes.cfg", workers=4, timeout=300,
+                             cfgtext=iq_cfg(reqs="ReqsTwo", idof="IdDistinct", maxresp=3, steps=40, emit=False, view=True, **kw))
+            if r["code"] != 12:
+                raise Infra("non-vacuity: model variant '%s' did not violate a C07 invariant (exit %d)" % (name, r["code"]))
+        ctx.notes["non_vacuity"] = "model variants D15 (register after write), D14 (separate critical sections), D14 (unbuffered channel) each violate a C07 invariant"
+        ctx.notes["bounds"] = "every schedule of length %d of 1 request x 2 responses (SendIQ in two steps, dispatch in up to four, receiver reading or abandoning, context cancellation), %d random schedules of 2 requests (distinct or clashing ids) x 3 responses, duplicates sent concurrently through a real connection; all interleavings of 2 requests x 3 responses in the model" % (n1, 250 if q else 3000)
+        out, nev, _ = vlib.run_driver(ctx, "c07", scen=scen, args=["-stress", "20" if q else "200"], timeout=3000)
+        ctx.verdicts += vlib.tlc_trace(ctx, "TraceIQRoutes", "Trace_IQRoutes.cfg", out, nev, timeout=1800)
+    replay_or(ctx, "c07", "TraceIQRoutes", "Trace_IQRoutes.cfg", full)
+    ctx.assumptions += ["gates (hooks route.lookup/deleted/sent/closed, sendiq.written, iqroute.ctxdone) only order the goroutines; a step that reaches no gate within 40 ms is taken as blocked and the schedule goes on",
+                        "with clashing ids only safety is asserted (no crash, no block, at most once, own id); which of two concurrent matching responses wins is not asserted"]
+FAMILY_TRACE["c07"] = ("TraceIQRoutes", "Trace_IQRoutes.cfg")
+
+
+# ------------------------------------------------------------------ C02
+@check("C02")
+def c02(ctx):
+    q = ctx.tier == "quick"
+    tops = S("message", "presence", "iq", "features", "streamerror", "success", "failure", "enabled", "resumed", "r", "a", "failed", "handshake",
+             "cmessage", "ciq", "unknownns", "unknownname", "smunknown", "saslunknown")
+    fills = S("empty", "text", "known", "unknown", "same", "deep", "two")
+    def cfg(n, t=tops, f=fills):
+        return """SPECIFICATION GSpec
+CONSTANTS
+  Tops = %s
+  Fills = %s
+  MaxElems = %d
+  Emit = TRUE
+INVARIANTS C02_OnePacketPerTopLevelElement EmitInv
+CHECK_DEADLOCK FALSE
+""" % (t, f, n)
+    def full():
+        scen = blines(vlib.tlc_mc(ctx, "StreamParser", "MC_StreamParser.cfg", cfgtext=cfg(2)))
+        if not q:
+            scen += blines(vlib.tlc_mc(ctx, "StreamParser", "MC_StreamParser.cfg",
+                                       cfgtext=cfg(3, S("message", "presence", "iq", "features", "r", "a", "cmessage", "unknownname"), S("empty", "known", "same", "two"))))
+        ctx.exhaustive = True
+        ctx.notes["bounds"] = "all streams of <= 2 top-level elements (thorough: <= 3 over a reduced alphabet) over 19 top-level kinds (stanzas of both namespaces, features, stream error, SASL, the six SM elements, handshake, unknown namespace / name) x 7 content shapes (empty, text, known child, unknown nested, descendant named like the element, 4-deep nesting, direct child named like the element); segmentations: whole, 1 byte per read, single split points, seeded multi-splits; every truncation of %d streams; %d single-byte corruptions" % ((6, 3000) if q else (60, 60000))
+        out, nev, _ = vlib.run_driver(ctx, "c02", scen=scen, args=["-splits", "12" if q else "60", "-trunc", "6" if q else "60", "-corrupt", "3000" if q else "60000"], timeout=3000)
+        ctx.verdicts += vlib.tlc_trace(ctx, "TraceStreamParser", "Trace_StreamParser.cfg", out, nev, timeout=2400)
+    replay_or(ctx, "c02", "TraceStreamParser", "Trace_StreamParser.cfg", full)
+    ctx.assumptions += ["tokens are produced by encoding/xml from the same bytes (the standard library's tokeniser is trusted; the library under test uses it too)",
+                        "after the first error the rest of a stream is unconstrained; for corrupted inputs only the elements that end before the damaged byte, no panic and bounded time are asserted",
+                        "which children land in which field is C01's business; prefixed addressing attributes (foo:to) are not generated"]
+FAMILY_TRACE["c02"] = ("TraceStreamParser", "Trace_StreamParser.cfg")
